@@ -264,7 +264,7 @@ func c11Drive(args []string) int {
 	}
 	axes := []string{"child::", "descendant::", "descendant-or-self::", "parent::", "ancestor::", "ancestor-or-self::", "following-sibling::", "preceding-sibling::", "following::", "preceding::", "self::", "attribute::"}
 	tests := []string{"a", "b", "c", "*", "node()", "p:d", "text()"}
-	preds := []string{"", "", "[1]", "[2]", "[last()]", "[position()>1]", "[@k]", "[@k='1']", "[a]", "[b='1']", "[.='1']", "[count(*)>1]", "[not(@j)]", "[contains(., 'x')]", "[starts-with(name(), 'a')]", "[string-length(.)>1]", "[a or b]", "[@k and @j]", "[@p:m]", "[local-name()='d']"}
+	preds := []string{"", "", "[1]", "[2]", "[last()]", "[position()>1]", "[@k]", "[@k='1']", "[a]", "[b='1']", "[.='1']", "[count(*)>1]", "[not(@j)]", "[contains(., 'x')]", "[starts-with(name(), 'a')]", "[string-length(.)>1]", "[a or b]", "[@k and @j]", "[@p:m]", "[local-name()='d']", "[name()='p:d']", "[@xmlns:p]", "[@p]", "[name(..)='root']"}
 	// abbreviated syntax (what schemas are written in): ./x, .//x, ../x, @k, x/y, //x
 	genAbbrev := func() string {
 		var sb strings.Builder
@@ -276,7 +276,7 @@ func c11Drive(args []string) int {
 			}
 			t := []string{"a", "b", "c", "p:d", "*", "..", ".", "text()"}[r.Intn(8)]
 			if s == steps-1 && r.Intn(5) == 0 {
-				t = []string{"@k", "@j", "@*"}[r.Intn(3)]
+				t = []string{"@k", "@j", "@*", "@p", "@xmlns:p", "@*[name()='p:m']"}[r.Intn(6)]
 			}
 			pr := ""
 			if t != ".." && t != "." && t != "text()" && t[0] != '@' {
@@ -304,7 +304,8 @@ func c11Drive(args []string) int {
 			ax := axes[r.Intn(len(axes))]
 			t := tests[r.Intn(len(tests))]
 			if ax == "attribute::" {
-				t = []string{"k", "j", "*", "p:m"}[r.Intn(4)]
+				// (p and xmlns:p: the namespace declaration on the root is an attribute node named xmlns:p, not p)
+				t = []string{"k", "j", "*", "p:m", "p", "xmlns:p", "*[name()='k']", "*[name()='xmlns:p']", "*[local-name()='p']"}[r.Intn(9)]
 			}
 			pr := preds[r.Intn(len(preds))]
 			upward := ax == "self::" || ax == "parent::" || ax == "ancestor::" || ax == "ancestor-or-self::"
